@@ -497,7 +497,9 @@ def _python_gate(res, rnd, ctx, lines, cases):
 
 def _handler_gate(res):
     """The configuration switch of pygopherd's TAL handler."""
-    for setting, expect_file in (("false", False), ("true", True), (None, True)):
+    # every spelling ConfigParser.getboolean() reads as false / true
+    for setting, expect_file in ([(x, False) for x in ("false", "False", "FALSE", "no", "No", "NO", "off", "Off", "OFF", "0")] +
+                                 [(x, True) for x in ("true", "True", "YES", "on", "1")] + [(None, True)]):
         tree = pyg.Tree()
         try:
             canary = os.path.join(tree.tmp, "python-canary")
@@ -510,11 +512,11 @@ def _handler_gate(res):
             r = pyg.request(b"/page.html.tal\r\n", cfg)
             res.evaluations += 1
             exists = os.path.exists(canary)
-            if setting == "false" and exists:
+            if expect_file is False and exists:
                 res.violation("C18:handler-python-evaluated-while-disabled", "TALFileHandler evaluated python: with allowpythonpath = false",
-                              {"config": "allowpythonpath = false"}, observed=r.out[:200].decode("latin-1"), required="no side effect",
+                              {"config": "allowpythonpath = " + setting}, observed=r.out[:200].decode("latin-1"), required="no side effect",
                               replay={"kind": "handler", "setting": setting})
-            if setting != "false":
+            if expect_file:
                 res.count("handler-python-enabled:" + ("evaluated" if exists else "NOT-evaluated"))
                 if exists:
                     res.nontrivial.add("handler:" + str(setting))
